@@ -7,7 +7,7 @@ VARIABLES Rec, verdict
 ModelOf(o) == IF o.pa = 0 THEN FixedModels[o.mi] ELSE ParamModel(o.pa, o.pb)
 \* well-formedness of XML text is opaque here: a text that no XML parser takes must be rejected; junk after a complete
 \* root element is left open (a streaming reader need not look at it)
-TextVerdict(o) == IF o.at \in {"two_roots", "unclosed_extra_tag"} THEN Either ELSE MustReject
+TextVerdict(o) == IF o.after_root THEN Either ELSE MustReject
 VerdictFor(o, m) ==
     IF o.fmt = "json" THEN JsonVerdict(m, o.doc, TCls(m.root))
     ELSE IF o.fmt = "xml" THEN XmlVerdict(m, o.doc, m.root)
